@@ -183,7 +183,11 @@ type world struct {
 	rrBase      int // slot index assigned to the pick that synchronised the cursor
 	rrSynced    bool
 	rrLen       int
-	rrOff       bool // expectations switched off (a pool conn was shut down)
+	rrList      []int // slots in the order the rotation visits them: creation order; a channel that left the pool (SHUTDOWN) is out, one that comes back through its replacement goes to the end
+	rrPos       int   // position in rrList of the last synchronised assignment
+	rrGen       int   // bumped whenever rrList changes
+	rrGenSeen   int   // rrGen at the last (re)synchronisation attempt
+	rrEver      bool  // some BIND was assigned already
 	rrLastUns   *pendingPick
 	aggBefore   connectivity.State // aggregate at the start of the current primitive op
 	aliveBefore int                // pool connections at the start of the current primitive op
@@ -314,6 +318,37 @@ func (w *world) slotOfConn(sc balancer.SubConn) int {
 	}
 	return -1
 }
+
+// absorbStray: a waiting round-robin BIND whose channel left the pool goes on with the next channel of the rotation; when
+// the rotation is empty it (re-)creates a channel first - asynchronously to the ops of the history. Such connections
+// are pool channels like any other.
+func (w *world) absorbStray() {
+	for _, sc := range w.cc.all {
+		if sc.foreign || w.slotOfConn(sc) >= 0 || w.cc.everRemoved[balancer.SubConn(sc)] {
+			continue
+		}
+		isRepl := false
+		for _, sl := range w.slots {
+			if sl.repl == sc {
+				isRepl = true
+			}
+		}
+		if isRepl {
+			continue
+		}
+		w.addSlot(sc)
+		w.labels["pool-recreated-by-a-waiting-bind"]++
+	}
+}
+
+func (w *world) allAliveReady() bool {
+	for _, s := range w.slots {
+		if s.alive && s.st != connectivity.Ready {
+			return false
+		}
+	}
+	return true
+}
 func (w *world) idleOrConnecting() bool {
 	for _, s := range w.slots {
 		if s.alive && (s.st == connectivity.Idle || s.st == connectivity.Connecting) {
@@ -326,6 +361,24 @@ func (w *world) factoryRefuses() bool { return w.cc.failNew || (w.cc.strict && a
 
 func (w *world) addSlot(sc *fsc) {
 	w.slots = append(w.slots, &slot{conn: sc, st: connectivity.Idle, alive: true, lastResp: time.Now()})
+	w.rrList = append(w.rrList, len(w.slots)-1)
+	w.rrGen++
+}
+
+func (w *world) rrRemove(i int) {
+	for k, x := range w.rrList {
+		if x == i {
+			w.rrList = append(append([]int{}, w.rrList[:k]...), w.rrList[k+1:]...)
+			w.rrGen++
+			break
+		}
+	}
+	for _, pp := range w.pend {
+		if pp.assigned == i {
+			pp.assigned = -1 // the library takes the next channel of the rotation for it
+			w.labels["rr-waiting-bind-retargeted"]++
+		}
+	}
 }
 
 // checkPub absorbs the publications of this step and applies the C04 rules.
@@ -635,7 +688,7 @@ func (w *world) doState(sc *fsc, s connectivity.State) {
 		if s == connectivity.Shutdown {
 			sl.alive = false
 			sl.everDead = true
-			w.rrOff = true
+			w.rrRemove(i)
 			for k, h := range w.aff {
 				if h == i {
 					w.tainted[k] = true
@@ -664,6 +717,8 @@ func (w *world) doState(sc *fsc, s connectivity.State) {
 					}
 				}
 				w.labels["swap-resurrects-dead-slot"]++
+				w.rrList = append(w.rrList, i)
+				w.rrGen++
 			}
 			if !(sl.alive && sl.st == connectivity.Ready) {
 				// the slot becomes READY through the swap: keys come home
@@ -805,6 +860,7 @@ func (w *world) opPick(op *Op) {
 		pp.key = refKey
 	}
 	isRR := m.Cmd == "BIND" && w.cfg.RR && p.state != connectivity.TransientFailure && len(p.snap) > 0 && !(keyed && refErr)
+	rotEmpty := isRR && len(w.rrList) == 0
 	if isRR {
 		w.rrIssue(pp)
 	}
@@ -834,11 +890,44 @@ func (w *world) opPick(op *Op) {
 		out.res, out.err = p.picker.Pick(balancer.PickInfo{Ctx: ctx, FullMethodName: m.Name})
 	}()
 	synctest.Wait()
+	if rotEmpty {
+		// a superseded picker with READY channels while every channel has left the pool: the library may re-create a
+		// channel for the rotation ("to re-create an emptied pool")
+		w.labels["rr-bind-with-empty-rotation"]++
+		for _, sc := range w.cc.created {
+			w.addSlot(sc)
+			w.labels["pool-recreated"]++
+		}
+		w.cc.created = nil
+	}
 	select {
 	case out := <-pp.ch:
+		if rotEmpty && out.panicv == nil {
+			if out.err == nil {
+				if pl := w.slotOfConn(out.res.SubConn); pl >= 0 {
+					w.slots[pl].inflight++
+					w.ncalls++
+					w.calls = append(w.calls, &callrec{id: w.ncalls, slot: pl, done: out.res.Done, m: m, key: key, ctx: ctx, cancel: cancel, start: out.at, hasIC: hasIC, stale: stale, bindReqKey: key})
+				}
+			}
+			w.checkPub(what, R0)
+			return
+		}
 		w.pickReturned(pp, out, keyed, refErr, R0, true)
 	default:
 		w.pend = append(w.pend, pp) // first of all: whatever happens next, the end of the case cancels it
+		if os.Getenv("VERIF_DEBUG_BUBBLE") != "" {
+			buf := make([]byte, 1<<20)
+			buf = buf[:runtime.Stack(buf, true)]
+			for _, g := range strings.Split(string(buf), "\n\n") {
+				if strings.Contains(g, "getSubConnRoundRobin") {
+					fmt.Fprintf(os.Stderr, "BLOCKED PICK at %s (%s):\n%s\n\n", what, w.describe(), g)
+				}
+			}
+		}
+		if isRR && w.alive() > 0 && w.allAliveReady() {
+			w.fail("C09|C06", "A'.deadwait", "%s: the round-robin BIND is blocked although every channel of the pool is READY (%s)", what, w.describe())
+		}
 		if !isRR {
 			w.fail("C06", "A.pick.blocks", "%s: the pick is blocked although it is not a round-robin BIND", what)
 		}
@@ -852,33 +941,41 @@ func (w *world) opPick(op *Op) {
 
 // rrIssue assigns the model's slot to a round-robin BIND pick at issue time.
 func (w *world) rrIssue(pp *pendingPick) {
-	n := len(w.slots)
-	if n == 0 || w.rrOff {
+	n := len(w.rrList)
+	if n == 0 {
+		// the rotation is empty (every channel left the pool); this BIND still moves the cursor
+		w.rrEver, w.rrSynced = true, false
 		return
 	}
-	if !w.rrSynced || w.rrLen != n {
-		if w.rrLen == 0 && !w.rrSynced {
-			// fresh balancer: the very first assignment is the first slot
-			w.rrSynced, w.rrBase, w.rrCount, w.rrLen = true, 0, 0, n
-			pp.assigned = 0
+	if !w.rrSynced || w.rrGenSeen != w.rrGen {
+		if !w.rrEver {
+			// fresh balancer: the very first assignment is the first channel
+			w.rrEver, w.rrSynced, w.rrPos, w.rrGenSeen = true, true, 0, w.rrGen
+			pp.assigned = w.rrList[0]
 			return
 		}
 		// composition changed: this assignment re-synchronises the cursor
-		w.rrSynced, w.rrLen, w.rrCount, w.rrLastUns = false, n, 0, pp
+		w.rrSynced, w.rrGenSeen, w.rrLastUns = false, w.rrGen, pp
 		w.labels["rr-resync"]++
 		return
 	}
-	w.rrCount++
-	pp.assigned = (w.rrBase + w.rrCount) % n
+	w.rrEver = true
+	w.rrPos = (w.rrPos + 1) % n
+	pp.assigned = w.rrList[w.rrPos]
 }
 
 // rrLearn is called when an unsynchronised BIND pick returned on slot s.
 func (w *world) rrLearn(pp *pendingPick, s int) {
-	if w.rrOff || w.rrSynced || w.rrLen != len(w.slots) || w.rrLastUns != pp {
+	if w.rrSynced || w.rrGenSeen != w.rrGen || w.rrLastUns != pp {
 		return
 	}
 	// only the most recently issued unsynchronised pick can re-synchronise (nothing was issued after it)
-	w.rrSynced, w.rrBase, w.rrCount, w.rrLastUns = true, s, 0, nil
+	for k, x := range w.rrList {
+		if x == s {
+			w.rrSynced, w.rrPos, w.rrLastUns = true, k, nil
+			return
+		}
+	}
 }
 
 func (w *world) pickReturned(pp *pendingPick, out pickOut, keyed, refErr bool, R0 []int, immediate bool) {
@@ -1087,14 +1184,15 @@ func (w *world) anySwapOn(i int) bool { return w.slots[i].swaps > 0 }
 // rrReturned applies Appendix A' to a returned round-robin BIND pick.
 func (w *world) rrReturned(pp *pendingPick, placed int, err error) {
 	what := pp.what
+	if err == balancer.ErrNoSubConnAvailable && w.alive() == 0 {
+		// every channel has left the pool (and none could be re-created): there is nothing to hand out, the call is told to wait
+		w.labels["rr-bind-told-to-wait-pool-is-empty"]++
+		return
+	}
 	if err != nil {
 		w.fail("C09", "A'.err", "%s: round-robin BIND returned error %v", what, err)
 	}
 	ctxEnded := pp.ctx.Err() != nil
-	if w.rrOff {
-		w.labels["rr-unconstrained"]++
-		return
-	}
 	if pp.assigned < 0 {
 		w.labels["rr-unsynced-pick"]++
 		w.rrLearn(pp, placed)
@@ -1104,7 +1202,7 @@ func (w *world) rrReturned(pp *pendingPick, placed int, err error) {
 		return
 	}
 	if placed != pp.assigned {
-		w.fail("C09", "A'.order", "%s: assigned slot %d in creation-order rotation, got slot %d (%d slots)", what, pp.assigned, placed, len(w.slots))
+		w.fail("C09", "A'.order", "%s: assigned slot %d in creation-order rotation, got slot %d (rotation %v)", what, pp.assigned, placed, w.rrList)
 	}
 	if !ctxEnded && !w.ready(placed) {
 		w.fail("C09", "A'.ready", "%s: handed slot %d which is not READY although its context has not ended", what, placed)
@@ -1121,6 +1219,7 @@ func (w *world) collect(after string) {
 		return
 	}
 	synctest.Wait()
+	w.absorbStray()
 	var still []*pendingPick
 	for _, pp := range w.pend {
 		select {
@@ -1144,7 +1243,10 @@ func (w *world) collect(after string) {
 					w.fail("C09|C06", "A'.ctx", "%s: context ended (%v) but the pick is still blocked after %s", pp.what, pp.ctx.Err(), after)
 				}
 			}
-			if pp.assigned >= 0 && !w.rrOff && w.ready(pp.assigned) {
+			if w.alive() > 0 && w.allAliveReady() {
+				w.fail("C09|C06", "A'.deadwait", "%s: the round-robin BIND is still blocked after %s although every channel of the pool is READY (%s)", pp.what, after, w.describe())
+			}
+			if pp.assigned >= 0 && w.ready(pp.assigned) {
 				w.fail("C09|C06", "A'.release", "%s: assigned slot %d is READY after %s but the pick is still blocked", pp.what, pp.assigned, after)
 			}
 			still = append(still, pp)
@@ -1596,10 +1698,7 @@ func (w *world) runOp(op *Op) {
 		vals := []uint64{1<<32 - 3, 1<<32 - 2, 1<<31 - 3, 1<<31 - 2, 1<<16 - 2, 1<<32 - 1, 1<<31 - 1, 7}
 		if w.b != nil && w.cfgFixed && len(w.pend) == 0 && len(w.slots) > 0 {
 			if grpcgcp.VerifSetRRCursor(w.b, vals[((op.N%len(vals))+len(vals))%len(vals)]) {
-				w.rrSynced, w.rrLastUns = false, nil
-				if w.rrLen == 0 {
-					w.rrLen = len(w.slots)
-				}
+				w.rrSynced, w.rrLastUns, w.rrEver = false, nil, true
 				w.labels["rr-cursor-moved-near-a-wrap-point"]++
 			} else {
 				w.labels["rr-cursor-hook-unavailable"]++
